@@ -18,6 +18,12 @@ Correspondence streams (model = lean/Drv/C07.lean over Model.Apci):
                 numeric fields) of OTHER PDU types — an object with a past
   hdr-reuse   : decode a frame of type A into an APDU (or APCI.update() a fresh one from it), give it
                 the type and own fields of B, encode: model = aenc of the merged attribute set
+  subclass    : aenc / adec through application subclasses made at run time of the eight PDU classes,
+                of the generic APDU and of five service classes one level down (WhoIs, IAm,
+                ReadProperty, ReadPropertyACK, Error): plain / own _debug_contents / list attribute
+                set in __init__ / __init__ with extra keyword arguments / both — every combination of
+                (typed variant, generic variant); decode generic -> typed via update(), encode typed
+                -> generic -> octets; the model request is the plain aenc / adec
   history     : sequences inside ONE process (8/16 workers, several sequences each, and once more in
                 the main process at the very end): decode octets -> APDU -> typed object; mutate
                 decoded objects' pduData the way the segmentation code does (put_data of another
@@ -62,7 +68,8 @@ RULE = ("full cross product per PDU type of flag bits x max-segments codes 0..7 
         "complex acks, 500 segment acks, ...; quick thins only the (inv,svc,seq,win) octets of segmented "
         "confirmed requests to a strength-3 orthogonal array: 76 800 headers), each through "
         "enc/aenc/dec/adec with a payload; loose headers; headers with every combination of stale flags "
-        "of other PDU types, reused / APCI.update()d header objects; in-process histories (decode, mutate "
+        "of other PDU types, reused / APCI.update()d header objects; run-time application subclasses of the "
+        "PDU classes, APDU and service classes (5 variants x 5 variants); in-process histories (decode, mutate "
         "decoded objects' pduData, decode, re-encode) in every worker and the main process; "
         "all octet strings of length <=2 (quick) / <=3 (thorough) exhaustively, random longer ones, "
         "all strict prefixes and single-octet substitutions of valid frames; capabilities None, "
@@ -152,6 +159,52 @@ def tbl_exc_kind(e):
     return core.exc_kind(e)
 
 
+# ---------------------------------------------------------------- application subclasses (made at run time)
+
+SUB_VARIANTS = ["plain", "dbg", "trace", "kw", "kwdbg"]
+SVC_CLASSES = {  # service classes one level below the PDU classes: (pdu type, canonical payload)
+    "WhoIsRequest": (1, "0900190a"), "IAmRequest": (1, "c40200000122040091002 10f".replace(" ", "")),
+    "ReadPropertyRequest": (0, "0c000000011955"), "ReadPropertyACK": (3, "0c0000000119553e44000000003f"),
+    "Error": (5, "91029120")}
+_sub_cache = {}
+
+
+def subclass_of(base, variant):
+    """an application subclass of a PDU class / APDU / service class:
+       plain  adds nothing;  dbg  declares its OWN _debug_contents + an attribute (the DebugContents
+       pattern npdu.py uses for every message class);  trace  the same with a list attribute set in
+       __init__ ('trace+');  kw  overrides __init__ with extra keyword arguments;  kwdbg  both."""
+    if variant is None:
+        return base
+    key = (base, variant)
+    if key not in _sub_cache:
+        ns = {}
+        if variant == "dbg":
+            ns = {"_debug_contents": ("receivedAt",), "receivedAt": None}
+        elif variant == "trace":
+            def __init__(self, *args, **kwargs):
+                base.__init__(self, *args, **kwargs)
+                self.trace = []
+            ns = {"_debug_contents": ("trace+",), "__init__": __init__}
+        elif variant in ("kw", "kwdbg"):
+            def __init__(self, *args, stamp=None, hops=(), **kwargs):
+                base.__init__(self, *args, **kwargs)
+                self.stamp = stamp
+                self.hops = list(hops)
+            ns = {"__init__": __init__}
+            if variant == "kwdbg":
+                ns["_debug_contents"] = ("stamp", "hops")
+        _sub_cache[key] = type("%s_%s" % (variant.capitalize(), base.__name__), (base,), ns)
+    return _sub_cache[key]
+
+
+def make(cls, variant, **kw):
+    cls = subclass_of(cls, variant)
+    if variant in ("kw", "kwdbg"):
+        kw.update(stamp=12345, hops=("a", "b"))
+    return cls(**kw)
+
+
 # ---------------------------------------------------------------- implementation adapter
 
 def impl(case):
@@ -168,6 +221,55 @@ def impl(case):
             return {"r": "ok", "hex": bytes(p.pduData).hex()}
         except Exception as e:
             return {"r": "err", "k": enc_exc_kind(e)}
+    if op == "aenc" and case.get("sub"):
+        # typed (sub)class -> generic APDU (sub)class -> octets
+        try:
+            h = case["h"]
+            sub = case["sub"]
+            if sub.get("svc"):
+                from bacpypes.primitivedata import TagList
+                from bacpypes.constructeddata import Sequence
+                x = make(getattr(A, sub["svc"]), sub.get("typed"))
+                tl = TagList()
+                tl.decode(PDUData(bytes.fromhex(case["data"])))
+                Sequence.decode(x, tl)
+                set_fields(x, h)
+            else:
+                kw = {k: h[f] for k, f in CTOR[h["t"]].items()}
+                x = make(A.apdu_types[h["t"]], sub.get("typed"), **kw)
+                for k in KEYS:
+                    if k not in CTOR[h["t"]].values():
+                        setattr(x, ATTR[k], h[k])
+                x.pduData = bytearray(bytes.fromhex(case["data"]))
+            apdu = make(A.APDU, sub.get("apdu"))
+            x.encode(apdu)
+            pdu = PDU()
+            apdu.encode(pdu)
+            return {"r": "ok", "hex": bytes(pdu.pduData).hex()}
+        except Exception as e:
+            return {"r": "err", "k": enc_exc_kind(e)}
+    if op == "adec" and case.get("sub"):
+        # octets -> generic APDU (sub)class -> typed (sub)class via update()
+        try:
+            sub = case["sub"]
+            apdu = make(A.APDU, sub.get("apdu"))
+            apdu.decode(PDU(bytes.fromhex(case["hex"])))
+            seen = get_fields(apdu)
+            base = getattr(A, sub["svc"]) if sub.get("svc") else A.apdu_types.get(apdu.apduType)
+            x = make(base, sub.get("typed"))
+            x.decode(apdu)
+            if sub.get("svc"):
+                out = A.APDU()
+                x.encode(out)
+                data = bytes(out.pduData)
+            else:
+                data = bytes(x.pduData)
+            rep = {"r": "ok", "h": get_fields(x), "data": data.hex()}
+            if seen != rep["h"]:
+                rep["generic"] = seen       # what the generic object held (never equals a model reply)
+            return rep
+        except Exception as e:
+            return {"r": "err", "k": core.exc_kind(e)}
     if op == "aenc":
         try:
             h = case["h"]
@@ -400,8 +502,15 @@ def oracle(ctx, case, a):
                 return
         data = bytes.fromhex(case.get("data", ""))
         if a["r"] != "ok":
-            ctx.fail("encode-refused", case, "well-formed header refused: %s" % a["k"], op=op, pdu_type=h["t"],
-                     stale=stale)
+            via = ""
+            if case.get("sub"):
+                sb = case["sub"]
+                via = " when sent through %s -> %s (run-time application subclasses; the stock classes encode it)" % (
+                    "subclass '%s' of %s" % (sb.get("typed"), sb.get("svc") or STD_TYPES[h["t"]]) if sb.get("typed")
+                    else (sb.get("svc") or STD_TYPES[h["t"]]),
+                    "subclass '%s' of APDU" % sb["apdu"] if sb.get("apdu") else "APDU")
+            ctx.fail("encode-refused", case, "well-formed header refused: %s%s" % (a["k"], via), op=op,
+                     pdu_type=h["t"], stale=stale, sub=case.get("sub"))
             return
         exp = expected_layout(h) + data
         if a["hex"] != exp.hex():
@@ -435,6 +544,7 @@ def oracle(ctx, case, a):
                 ctx.fail("payload", case, "payload after the header is %s, expected %s" % (back["rest"], tail),
                          op=op, pdu_type=h["t"])
         else:
+            # (sent through application subclasses, it must still be what the STOCK classes decode)
             back = impl({"op": "adec", "hex": a["hex"]})
             if back.get("r") != "ok" or back["h"] != h:
                 ctx.fail("roundtrip", case, "APDU.decode(APDU.encode(h)) = %r" % (back,), op=op, pdu_type=h["t"])
@@ -456,9 +566,14 @@ def oracle(ctx, case, a):
             return
         h = a["h"]
         rest = a["rest"] if op == "dec" else a["data"]
+        if "generic" in a:
+            ctx.fail("decoded-header", case, "the typed object holds %r but the generic APDU it was filled from "
+                     "held %r" % (h, a["generic"]), op=op, sub=case.get("sub"))
         ref = ref_decode(raw)
         if ref is None or h != ref[0]:
-            ctx.fail("decoded-header", case, "decoded %r, clause 20.1 reads %r" % (h, ref and ref[0]), op=op)
+            ctx.fail("decoded-header", case, "decoded %r, clause 20.1 reads %r%s" % (
+                h, ref and ref[0], " (decoded through run-time application subclasses %r)" % (case["sub"],)
+                if case.get("sub") else ""), op=op, sub=case.get("sub"))
         if raw[n:].hex() != rest:
             ctx.fail("payload", case, "payload is %s, input after the header is %s" % (rest, raw[n:].hex()), op=op)
         if not wf(h):
@@ -735,6 +850,35 @@ def gen_stale(rng):
     return cases
 
 
+def gen_subclass(ctx, rng):
+    """the encode / decode / update paths through application subclasses of the eight PDU
+    classes, of the generic APDU and of service classes one level down; every header field
+    must come out exactly as with the stock classes (= the model reply for aenc / adec)"""
+    cases = []
+    variants = [None] + SUB_VARIANTS
+    combos = [(tv, av) for tv in variants for av in variants if tv or av]
+    for t in range(8):
+        hs = list(headers_of_type(t, full=False))
+        picks = [H(t, **b) for b in STALE_BASES[t]] + [rng.choice(hs) for _ in range(2 if ctx.quick else 10)]
+        for tv, av in combos:
+            for h in picks:
+                data = rng.choice(PAYLOADS)
+                sub = {"typed": tv, "apdu": av}
+                cases.append({"op": "aenc", "h": h, "data": data, "sub": sub})
+                cases.append({"op": "adec", "hex": (expected_layout(h) + bytes.fromhex(data)).hex(), "sub": sub,
+                              "canon": 1})
+    for name, (t, payload) in sorted(SVC_CLASSES.items()):
+        hs = list(headers_of_type(t, full=False))
+        picks = [H(t, **STALE_BASES[t][-1])] + [rng.choice(hs) for _ in range(2 if ctx.quick else 8)]
+        for tv, av in [(None, None)] + combos:
+            for h in picks:
+                sub = {"typed": tv, "apdu": av, "svc": name}
+                cases.append({"op": "aenc", "h": h, "data": payload, "sub": sub})
+                cases.append({"op": "adec", "hex": (expected_layout(h) + bytes.fromhex(payload)).hex(), "sub": sub,
+                              "canon": 1})
+    return cases
+
+
 REUSE_FIRST = ["0e7501800c0c0c02", "0275010c0c", "00050c0f", "1008", "20010f", "3c2a03040c0000", "342a0c3e3f",
                "302a0c", "43010203", "42010203", "41010203", "40010203", "50010c0e", "600109", "71012a", "700104"]
 
@@ -1006,6 +1150,11 @@ def sig(case, m):
     if op == "reuse":
         return (op, case["first"][:2], case["via"], case["h"]["t"], bool(case["h"]["seg"]),
                 "ok" if m.get("r") == "ok" else m.get("k"))
+    if case.get("sub"):
+        sub = case["sub"]
+        t = case["h"]["t"] if op == "aenc" else int(case["hex"][:1], 16)
+        seg = bool(case["h"]["seg"]) if op == "aenc" else bool(int(case["hex"][1:2], 16) & 8) and t in (0, 3)
+        return (op, "sub", t, seg, sub.get("typed"), sub.get("apdu"), sub.get("svc"), m.get("r"))
     if op in ("enc", "aenc"):
         h = case["h"]
         res = "ok" if m.get("r") == "ok" else m.get("k")
@@ -1034,7 +1183,7 @@ def run_cases(ctx, stream, cases, oracle_on=True):
             oracle(ctx, c, r)
     if ctx.model_ok:
         wire = [c["model"] if "model" in c else
-                {k: v for k, v in c.items() if k not in ("tail", "loose", "canon")} for c in cases]
+                {k: v for k, v in c.items() if k not in ("tail", "loose", "canon", "sub")} for c in cases]
         b = core.Driver("drv_c07").ask(wire)
         ctx.compare_stream(stream, cases, a, b, sig=sig)
     else:
@@ -1094,6 +1243,7 @@ def run(ctx):
     run_cases(ctx, "hdr-loose", gen_loose(rng))
     run_cases(ctx, "hdr-stale", gen_stale(rng))
     run_cases(ctx, "hdr-reuse", gen_reuse(rng))
+    run_cases(ctx, "subclass", gen_subclass(ctx, rng))
     run_cases(ctx, "oct-trunc", gen_oct_trunc(ctx, rng))
     # 3. full cross product per type, exhaustive octet strings, random octets (sharded)
     specs = [(0, i, 16) for i in range(16)] + [(t, 0, 1) for t in range(1, 8)]
@@ -1126,7 +1276,7 @@ def search(ctx):
     n0 = len(ctx.failures)
     oracle_registry(ctx)
     oracle_context_ctor(ctx)
-    for c in gen_stale(rng) + gen_reuse(rng) + gen_loose(rng):
+    for c in gen_stale(rng) + gen_reuse(rng) + gen_loose(rng) + gen_subclass(ctx, rng):
         oracle(ctx, c, impl(c))
     if len(ctx.failures) > n0:
         return
